@@ -241,3 +241,75 @@ def run_case(c: Dict[str, Any]) -> Outcome:
 
 SELFTEST_CASES = [{"nodes": [{"style": "async", "ctx": True, "sleep": 0, "deps": []}, {"style": "async", "ctx": False, "sleep": 0, "deps": [[0, False]]}],
                    "task_deps": [[1, False]], "msgs": [[0, 0], [0, 0]], "custom_ctx": False}]
+
+
+# ---------------------------------------------------------------- results in the bundled in-memory backend
+#
+# "the result stored under a task id is the one produced by executing the message that carried that id" - also in the
+# result backend taskiq ships with InMemoryBroker, whose store is bounded (max_stored_results) and evicts the oldest entry.
+
+
+def inmemory_cases() -> Any:
+    return st.fixed_dictionaries({
+        "inmemory": st.just(True), "cap": st.sampled_from([-1, 1, 2, 3, 5]), "n": st.integers(1, 9),
+        "inplace": st.booleans(), "resend": st.sampled_from([False, False, True]),       # resend: one id is used twice
+    })
+
+
+def run_inmemory_case(c: Dict[str, Any]) -> Outcome:
+    from taskiq import InMemoryBroker
+
+    out = Outcome()
+    out.clauses_checked = ["C06.b"]
+    n, cap = c["n"], c["cap"]
+    ids = [f"id{k}" for k in range(n)]
+    if c["resend"] and n >= 3:
+        ids[-1] = ids[0]
+
+    async def main() -> None:
+        b = InMemoryBroker(await_inplace=c["inplace"], max_stored_results=cap)
+
+        async def t(k: int) -> Dict[str, Any]:
+            return {"produced_by": k}
+
+        t.__module__ = __name__
+        b.register_task(t, task_name="inmem.t")
+        latest: Dict[str, int] = {}
+        order: List[str] = []
+        for k, tid in enumerate(ids):
+            await AsyncKicker("inmem.t", b, {}).with_task_id(tid).kiq(k)
+            if not c["inplace"]:
+                await b.wait_all()
+            latest[tid] = k
+            if tid in order:
+                order.remove(tid)
+            order.append(tid)
+            # the newest result is retrievable under its own id, and every id that still answers gives its own execution's value
+            for tid2, k2 in latest.items():
+                if await b.result_backend.is_result_ready(tid2):
+                    r = await b.result_backend.get_result(tid2)
+                    if r.is_err or r.return_value != {"produced_by": k2}:
+                        out.add("C06.b", f"after executing message #{k} (id {tid}): the result stored under {tid2} is {short(r.return_value, 80)} "
+                                         f"(is_err={r.is_err}), but the message carrying that id was #{k2} (store capacity {cap})")
+                        return
+                elif tid2 == tid and cap != 0:
+                    out.add("C06.b", f"the result of message #{k} is not stored under its own id {tid} right after its execution (store capacity {cap})")
+                    return
+        await b.shutdown()
+
+    asyncio.run(main())
+    out.nontrivial = bool(cap != -1 and len(set(ids)) > cap)
+    out.classes = ["inmemory_backend"] + (["store_overflows"] if out.nontrivial else []) + (["id_used_twice"] if len(set(ids)) < n else [])
+    return out
+
+
+_base_parts06, _base_run06 = parts, run_case
+
+
+def parts(tier: str) -> List[Part]:  # type: ignore[no-redef]
+    nn = 3000 if tier == "thorough" else 150
+    return _base_parts06(tier) + [Part("inmemory_backend", "given", shards=2, examples=nn, strategy=inmemory_cases, soft_deadline_s=900 if tier == "thorough" else 100)]
+
+
+def run_case(c: Dict[str, Any]) -> Outcome:  # type: ignore[no-redef]
+    return run_inmemory_case(c) if c.get("inmemory") else _base_run06(c)
